@@ -87,7 +87,7 @@ NONE_MAP.update(
         )
     }
 )
-NONE_MAP.update({floatType: floatType("nan") for floatType in (float, np.float64)})
+NONE_MAP.update({floatType: floatType("nan") for floatType in (float, np.float16, np.float32, np.float64)})
 
 
 class Layout:
